@@ -136,8 +136,19 @@ def gen_case(rng, params, idx):
             for m in methods:
                 if rng.random() < 0.5:
                     m["pos"][j]["t"] = "ABCMeta"
+    kwcalls = {}
+    if rng.random() < 0.3:
+        # a keyword-only parameter `k` annotated type[...] (required by some methods, optional for others, absent from
+        # others): classes are passed through it by keyword
+        for m in methods:
+            r = rng.random()
+            if r < 0.6:
+                m["kw"] = [{"n": "k", "t": ["Ty", _gen_alias(rng, classes)] if rng.random() < 0.8 else "type", "req": r < 0.3}]
+        for i in range(len(calls)):
+            if rng.random() < 0.7:
+                kwcalls[str(i)] = ["c", _gen_alias(rng, classes, any_ok=True)]
     return {"hier": hier, "methods": methods, "calls": calls, "strict_first": strict, "refine": spec_refine,
-            "string_annotations": rng.random() < 0.3}
+            "string_annotations": rng.random() < 0.3, "kwcalls": kwcalls}
 
 
 def _is_passed(vx):
@@ -206,8 +217,12 @@ def check_case(spec, res):
         res.count("pos_subtler" if pos in aa.complex_transforms else "pos_plain_type")
     if spec.get("refine"):
         res.count("refinement_pair_programs")
-    for args in spec["calls"]:
+    for ci, args in enumerate(spec["calls"]):
         vals = [T.value(a, env) for a in args]
+        kwx = (spec.get("kwcalls") or {}).get(str(ci))
+        kwv = {"k": T.value(kwx, env)} if kwx is not None else {}
+        if kwx is not None:
+            res.count("calls_class_passed_by_keyword")
         res.ev()
         res.count("calls")
         for a in args:
@@ -219,15 +234,20 @@ def check_case(spec, res):
                     res.count("calls_passed_nested")
                 if "'Any'" in repr(a[1]):
                     res.count("calls_passed_generic_with_any_argument")
+        def kw_ok(m):
+            ks = m.get("kw") or []
+            if kwx is None:
+                return not any(k["req"] for k in ks)
+            return bool(ks) and _param_accepts(ks[0]["t"], env, kwx, kwv["k"])
         app = [m for m in spec["methods"]
-               if all(_param_accepts(p["t"], env, a, v) for p, a, v in zip(m["pos"], args, vals))]
+               if all(_param_accepts(p["t"], env, a, v) for p, a, v in zip(m["pos"], args, vals)) and kw_ok(m)]
         app_ids = [m["mid"] for m in app]
         ntype = sum(1 for m in app if any(isinstance(p["t"], list) or p["t"] == "type" for p in m["pos"]))
         if ntype >= 2:
             res.count("two_type_methods_applicable")
             res.nontrivial([sigkey, [T.vname(a) for a in args]])
-        out = outcome(lambda: o(*vals), vf)
-        callname = [T.vname(a) for a in args]
+        out = outcome(lambda: o(*vals, **kwv), vf)
+        callname = [T.vname(a) for a in args] + ([f"k={T.vname(kwx)}"] if kwx is not None else [])
         # resolve() must name the method the call enters (or raise the same kind of error), for passed types too
         from ..methods import mid_of_handler
         from ..observe import classify_exception
@@ -235,8 +255,13 @@ def check_case(spec, res):
             rh = ("handler", mid_of_handler(o.resolve(*vals)))
         except Exception as e:  # noqa: BLE001
             rh = classify_exception(e, vf)
-        res.count("resolve_checked")
-        if out[0] == "ran" and rh != ("handler", out[1][0] if out[1] else None) or \
+        if kwv or any(m.get("kw") for m in spec["methods"]):
+            rh = ("skipped",)       # resolve() takes no keywords
+        else:
+            res.count("resolve_checked")
+        if rh == ("skipped",):
+            pass
+        elif out[0] == "ran" and rh != ("handler", out[1][0] if out[1] else None) or \
                 out[0] in ("none", "amb") and rh[0] not in (out[0], "bind"):
             res.violation("resolve-vs-call", [out[0], rh[0]], spec,
                           observed={"call": callname, "call_outcome": [str(x) for x in out[:2]], "resolve": [str(x) for x in rh[:2]]},
@@ -247,7 +272,7 @@ def check_case(spec, res):
                 res.violation("ran-inapplicable", ["ran-inapplicable"], spec,
                               observed={"call": callname, "ran": got}, acceptable={"applicable": app_ids})
                 continue
-        elif out[0] == "none":
+        elif out[0] in ("none", "bind"):
             if app_ids:
                 res.violation("none-but-applicable", ["none"], spec, observed={"call": callname},
                               acceptable={"applicable": app_ids})
@@ -263,11 +288,25 @@ def check_case(spec, res):
             continue
         # (c) preference
         if len(app) > 1:
+            if len({bool(m.get("kw")) for m in app}) > 1:
+                res.skip_unspec()       # a method with and one without the keyword: how they compare is not stated
+                continue
+
+            def plist(m):
+                return m["pos"] + (m.get("kw") or [] if kwx is not None else [])
+
+            def key_(m, kw):
+                return ([T.tname(p_["t"]) for p_ in m["pos"]], [T.tname(k_["t"]) for k_ in (m.get("kw") or [])] if kw else None)
+            if kwx is None and any(key_(x, False) == key_(y, False) and key_(x, True) != key_(y, True)
+                                   for x in app for y in app if x is not y):
+                res.skip_unspec()       # they coincide on everything supplied and differ in an omitted keyword
+                continue
+
             def beats(m1, m2):
-                le = all(_le(p1["t"], p2["t"], env) for p1, p2 in zip(m1["pos"], m2["pos"]))
+                le = all(_le(p1["t"], p2["t"], env) for p1, p2 in zip(plist(m1), plist(m2)))
                 same = all(T.tname(p1["t"]) == T.tname(p2["t"]) or
                            {T.tname(p1["t"]), T.tname(p2["t"])} == {"type", "Ty[object]"}
-                           for p1, p2 in zip(m1["pos"], m2["pos"]))
+                           for p1, p2 in zip(plist(m1), plist(m2)))
                 if same:
                     return m1["mid"] > m2["mid"]
                 return le
